@@ -14,7 +14,8 @@ from ..ref import rfortran as rf
 from .. import lib
 
 CATS = [('IJ-AVG-$', 0), ('PEDGE-$', 1000)]
-TRACERS = {0: [(1, 'NOx', 1e9, 'ppbv'), (2, 'Ox', 0.5, 'half')],
+# (a negative scale fills all ten columns of the table's SCALE field: '-2.500E+00')
+TRACERS = {0: [(1, 'NOx', 1e9, 'ppbv'), (2, 'Ox', -2.5, 'negscale')],
            1000: [(1001, 'PSURF', 1.0, 'hPa'), (1002, 'PEDGE2', 1e9, 'ppbv')]}
 
 
@@ -79,6 +80,7 @@ class Prop(core.Prop):
             yield dict(group, layers='2+3', start=[1, 1, 1], tables='complete', flags=list(flags))
         for lp in ('1', '2+3'):
             yield dict(group, layers=lp, start=[1, 1, 1], tables='complete', dt=3)
+            yield dict(group, layers=lp, start=[1, 1, 1], tables='complete', instant=True)
             if self.tier == 'thorough':
                 yield dict(group, layers=lp, start=[2, 3, 2], tables='complete', dt=2, flags=[0, 1])
 
@@ -97,6 +99,9 @@ class Prop(core.Prop):
         vars_.sort(key=lambda v: -v[6])
         dt = 1.0 / case.get('dt', 1)
         self.taus = [(175343.0 + t * dt, 175343.0 + (t + 1) * dt) for t in range(case['nt'])]
+        if case.get('instant'):
+            # instantaneous output: every record is stamped tau1 == tau0
+            self.taus = [(a, a) for a, b in self.taus]
         for t in range(case['nt']):
             blk = []
             for k, (cat, off, num, name, scale, unit, nl) in enumerate(vars_):
